@@ -31,6 +31,14 @@ def _exprs(depth):
         for (ta, sa), (tb, sb) in itertools.product(atoms[::3], atoms[1::4]):
             for op in ("and", "or"):
                 yield f"{ta} {op} {tb}", (op, sa, sb)
+    # long chains (the fold over 4 and 5 terms)
+    chain = [atoms[0], atoms[6], atoms[11], atoms[3], atoms[16]]
+    for ops in (("and", "and", "and"), ("or", "or", "or"), ("and", "or", "and"), ("or", "and", "or", "and"), ("and", "and", "and", "and")):
+        terms = chain[:len(ops) + 1]
+        text, spec = terms[0]
+        for op, (t, s_) in zip(ops, terms[1:]):
+            text, spec = f"{text} {op} {t}", (op, spec, s_)
+        yield text, spec
     if depth >= 3:
         few = atoms[::5]
         for (ta, sa), (tb, sb), (tc, sc) in itertools.product(few, few, few):
